@@ -94,6 +94,11 @@ obtained with, newest first (the `while` loop of the source is not translated) -
 def dealloc_chunk_list (chain : List Chunk) (s : St) : St × Outcome Unit :=
   ({ s with evs := s.evs ++ chain.map freeEv }, .ok ())
 
+/-- `self.current_chunk_footer.set(c)`: `c` (whose `prev` link is the chunk that was current) becomes the current
+chunk -/
+def set_current_footer (c : Chunk) (s : St) : St × Outcome Unit :=
+  ({ s with a := { s.a with chunks := c :: s.a.chunks } }, .ok ())
+
 /-- `footer.allocated_bytes = n` for the current chunk -/
 def chunk_ab_set (_E : Nat) (c : Chunk) (n : Nat) (s : St) : St × Outcome Unit :=
   match s.a.chunks with
